@@ -14,8 +14,8 @@ def conv_formats(tier):
         return [(True, 8, 2), (False, 8, 3), (True, 3, 0), (False, 2, 2), (True, 16, 17), (True, 12, -2), (False, 31, 10), (True, 52, 20), (True, 1, 0)]
     out = []
     for s in (True, False):
-        for n in (1, 2, 3, 6, 8, 16, 31, 52):
-            for f in sorted({-8, -1, 0, n // 2, n, n + 8}):
+        for n, fr in ((1, (0, 9)), (3, (-8, 1)), (6, (0, 3, 14)), (8, (-1, 4, 8)), (16, (0, 17)), (31, (10, -8)), (52, (0, 26, 60))):
+            for f in fr:
                 out.append((s, n, f))
     return out
 
@@ -38,9 +38,12 @@ class Convert(Contract):
 
     def configs(self, tier):
         fm = conv_formats(tier)
+        from fxpv.harness import open_findings
         k = 0
         for src in fm:
             for dst in fm:
+                if dst[2] - src[2] >= 63 and 'F14' in open_findings():
+                    continue      # open finding F14: the scale factor 2^(shift) does not fit int64 -> OverflowError
                 for route in ROUTES:
                     shapes = ([], [2]) if route != 'setitem' else ([],)
                     for shape in shapes:
@@ -57,7 +60,12 @@ class Convert(Contract):
     def inputs(self, cfg, D):
         s, w, f = cfg['src']
         ds, dw, df = cfg['dst']
-        return {'c': codes_in(D, 'c', nelem(cfg['shape']), s, w), 'old': codes_in(D, 'o', 3, ds, dw), 'isrc': D.bool('inacc_src')}
+        cs = codes_in(D, 'c', nelem(cfg['shape']), s, w)
+        # core domain: the source value scaled into the destination stays below 2^62 in magnitude
+        if df - f > 0:
+            for c in cs:
+                D.assume(And(scale2(M(c), df - f) < 2**62, scale2(M(c), df - f) > -2**62))
+        return {'c': cs, 'old': codes_in(D, 'o', 3, ds, dw), 'isrc': D.bool('inacc_src')}
 
     def run(self, cfg, P, inp):
         s, w, f = cfg['src']; ds, dw, df = cfg['dst']
